@@ -1104,6 +1104,60 @@ pub fn c18_all_ready(rec: &mut Rec, rng: &mut Rng, n_clients: usize, extra_waiti
     sim.w.teardown();
 }
 
+/// "with unanswered requests": several clients sent requests (yielded, not answered) and then went away — their
+/// connections are closed but kept, and each raises a hang-up on every poll; possibly a further client is waiting. The
+/// kill switch signalled in that state must be seen by the very next poll.
+pub fn c18_closed_unanswered(rec: &mut Rec, rng: &mut Rng, n_gone: usize, n_open: usize, extra_waiting: bool) {
+    rec.case("kill-switch-closed-unanswered");
+    rec.nontrivial();
+    let mut cfg = Cfg::base("C18");
+    cfg.with_kill = true;
+    cfg.max_clients = 13;
+    let mut sim = Sim::new(rec, cfg);
+    for _ in 0..(n_gone + n_open) {
+        sim.connect(rec);
+        sim.poll(rec);
+    }
+    for i in 0..n_gone {
+        sim.send_next(rec, rng, i);
+        while !sim.plans[i].outq.is_empty() {
+            sim.send_next(rec, rng, i);
+        }
+    }
+    for _ in 0..(2 * n_gone + 2) {
+        sim.poll(rec);
+    }
+    for i in 0..n_gone {
+        match i % 3 {
+            0 => sim.w.close(rec, i),
+            1 => sim.w.shutdown(rec, i, Shutdown::Write),
+            _ => sim.w.shutdown(rec, i, Shutdown::Both),
+        }
+    }
+    // the server notices the departures (the connections stay: their requests are unanswered)
+    sim.poll(rec);
+    sim.poll(rec);
+    for i in n_gone..(n_gone + n_open) {
+        sim.send_next(rec, rng, i);
+    }
+    if extra_waiting {
+        sim.connect(rec);
+    }
+    sim.w.signal_kill(rec);
+    let before = sim.w.shutdown_polls;
+    for _ in 0..3 {
+        if !sim.w.ready() {
+            rec.oracle_fail("C18", "the epoll descriptor is not ready although the kill switch was signalled", &sim.w.log);
+            break;
+        }
+        sim.w.poll(rec);
+    }
+    if sim.w.shutdown_polls < before + 3 || sim.w.nonshutdown_after_kill > 0 || !sim.w.poll_errors.is_empty() {
+        rec.oracle_fail("C18", &format!("{} connections closed with unanswered requests, {} open{}: {} polls reported shutdown, {} did not, errors {:?}", n_gone, n_open, if extra_waiting { ", a waiting client" } else { "" }, sim.w.shutdown_polls - before, sim.w.nonshutdown_after_kill, sim.w.poll_errors), &sim.w.log);
+    }
+    sim.w.teardown();
+}
+
 /// "with unsent output": responses larger than the socket buffer are partly written to clients that do not read,
 /// then the kill switch is signalled: the very next poll (and every later one) reports shutdown and returns at once
 /// — it must not try to deliver the rest first.
@@ -1167,6 +1221,9 @@ pub fn c18(rec: &mut Rec, rng: &mut Rng, thorough: bool) {
     }
     for n_clients in [1usize, 2, 3] {
         c18_unsent_output(rec, rng, n_clients);
+    }
+    for (gone, open, extra) in [(1usize, 0usize, true), (2, 0, false), (3, 2, true), (5, 5, true), (10, 0, true), (9, 1, false)] {
+        c18_closed_unanswered(rec, rng, gone, open, extra);
     }
     let n = if thorough { 2500 } else { 120 };
     for k in 0..n {
